@@ -77,7 +77,17 @@ type Plan struct {
 	// SrcAfter: what the failing source does when it is read again after it reported its error: "" the error again,
 	// "eof" a clean end, "resume" the rest of its bytes (an interrupted read that is retried). (r6)
 	SrcAfter string `json:"src_after,omitempty"`
+	// Debug: the Runtime runs in debug mode (requests and responses are dumped to a silent logger). (r7)
+	Debug bool `json:"debug,omitempty"`
+	// BadHeader: the parameter writer sets a header whose value holds a line break: such a request cannot be sent
+	// (net/http's transport refuses it before it dials, and so does the scripted one; a debug dump fails on it). (r7)
+	BadHeader bool `json:"bad_header,omitempty"`
 }
+
+type quietLogger struct{}
+
+func (quietLogger) Printf(string, ...interface{}) {}
+func (quietLogger) Debugf(string, ...interface{}) {}
 
 // upload source -------------------------------------------------------------------------------------
 
@@ -352,6 +362,14 @@ func Check(p Plan) *kit.Violation {
 			closeBody()
 			return nil, errRT
 		}
+		for _, vs := range req.Header {
+			for _, v := range vs {
+				if strings.ContainsAny(v, "\r\n") {
+					closeBody()
+					return nil, errors.New("scripted transport: invalid header field value")
+				}
+			}
+		}
 		if p.CancelAt == "upload" {
 			callerCancel()
 		}
@@ -401,6 +419,11 @@ func Check(p Plan) *kit.Violation {
 	})
 	if p.Reuse {
 		r.EnableConnectionReuse()
+	}
+	if p.Debug {
+		r.SetLogger(quietLogger{})
+		r.SetDebug(true)
+		defer r.SetDebug(false) // SetDebug also sets a package variable of the middleware package
 	}
 
 	mk := func(i, failAt int) *src {
@@ -453,6 +476,9 @@ func Check(p Plan) *kit.Violation {
 		}
 		if p.TimeoutMs >= 0 {
 			_ = req.SetTimeout(time.Duration(p.TimeoutMs) * time.Millisecond)
+		}
+		if p.BadHeader {
+			_ = req.SetHeaderParam("X-Note", "two\nlines")
 		}
 		switch p.Payload {
 		case "json":
@@ -661,6 +687,12 @@ func Check(p Plan) *kit.Violation {
 	if p.URLErr {
 		why = append(why, "invalid URL")
 	}
+	if p.BadHeader {
+		why = append(why, "a header value that cannot be sent")
+	}
+	if p.Debug && p.streaming() && p.sourceFails() {
+		why = append(why, "upload source failed while the request was dumped (debug mode)")
+	}
 	if p.Auth == "err" {
 		why = append(why, "auth writer error")
 	}
@@ -679,6 +711,9 @@ func Check(p Plan) *kit.Violation {
 	if readerErr != nil {
 		why = append(why, "reader could not read the response completely")
 	}
+	// debug mode dumps the response, body included unless it is announced as application/octet-stream: a failing
+	// response body may then fail the call although the reader would not have met the failure
+	dumpMayFail := p.Debug && body != nil && (p.RespEnd == "err" || p.CancelAt == "response")
 	if body != nil && (p.RespCT == "unregistered" || p.RespCT == "malformed") {
 		why = append(why, "response content type without a consumer")
 		if readerRan {
@@ -691,7 +726,7 @@ func Check(p Plan) *kit.Violation {
 	if len(why) == 0 && readerRan && p.Reader == "readall" && out.err == nil && body != nil && readerGot != len(body.data) {
 		return kit.Failf("TRUNCATED: the reader got %d of %d response bytes without an error", readerGot, len(body.data))
 	}
-	if len(why) == 0 && out.err != nil && dl == 0 {
+	if len(why) == 0 && out.err != nil && dl == 0 && !dumpMayFail {
 		return kit.Failf("SPURIOUS-ERROR: no fault in the plan and no deadline, yet Submit failed: %v", out.err)
 	}
 	return nil
@@ -774,6 +809,8 @@ func Gen(t *rapid.T) Plan {
 		p.CancelOff = rapid.IntRange(0, p.RespLen).Draw(t, "canceloff")
 	}
 	p.URLErr = rapid.IntRange(0, 11).Draw(t, "urlerr") == 0
+	p.Debug = rapid.IntRange(0, 3).Draw(t, "debug") == 0
+	p.BadHeader = rapid.IntRange(0, 9).Draw(t, "bad-header") == 0
 	p.MissingProd = rapid.IntRange(0, 19).Draw(t, "missingprod") == 0
 	// a stalling response needs a short deadline to end: that deadline is what the property is about
 	if p.RespEnd == "stall" && (p.deadlineMs() == 0 || p.deadlineMs() > 100) {
@@ -910,6 +947,11 @@ func Classify(p Plan) (bool, []string) {
 	add(p.TimeoutMs > 0 && p.DefaultMs == p.TimeoutMs, "explicit timeout equal to the default")
 	add(p.deadlineMs() > 0 && p.CtxMs > p.deadlineMs(), "context deadline later than the request timeout")
 	add(p.MissingProd, "missing producer")
+	add(p.BadHeader, "header value that cannot be sent")
+	add(p.BadHeader && p.Debug && p.streaming(), "debug mode, streamed payload, request that cannot be dumped")
+	if p.Debug {
+		labels = append(labels, "debug mode")
+	}
 	add(p.sourceFails() && p.SrcAfter != "", "failing source reports its error once, then "+p.SrcAfter)
 	add(p.sourceFails() && p.SrcAfter != "" && p.Auth == "getbody2", "source that fails once under an auth writer that asks for the body twice")
 	add(p.URLErr && p.Payload == "multipart" && p.NFiles > 0, "url error with files handed over")
